@@ -219,6 +219,21 @@ def run(payload):
                     want = 1 + c0 + 10 * c1_
                     if np.max(np.abs((g + c1) / 2 - want)) > 1e-10:
                         fail("expression_condition_evaluated_at_the_wrong_boundary_points", bc=repr(bc), route=route, axis=ax, upper=up, residual=float(np.max(np.abs((g + c1) / 2 - want))))
+    # ---- Dirichlet values given with a narrow integer dtype (e.g. image data): the face value is the value given
+    if sections is None or "narrow_integers" in sections:
+        from pde import CartesianGrid as _CGn
+        gn = _CGn([[0, 2]], 4)
+        fn = ScalarField(gn, [1.5, 2.0, 3.0, 4.0])
+        for v in (np.uint8(3), np.int8(100), np.int16(20000)):
+            cases += 1
+            try:
+                full = fn._data_full.copy()
+                gn.get_boundary_conditions({"x": {"value": v}}).set_ghost_cells(full)
+                face = [(full[0] + full[1]) / 2, (full[-1] + full[-2]) / 2]
+                if not np.allclose(face, float(v)):
+                    fail("dirichlet_value_of_a_narrow_integer_dtype_overflows", value=repr(v), face_values=[float(x) for x in face], want=float(v))
+            except Exception as e:
+                fail("error", where="narrow_integers", value=repr(v), error=f"{type(e).__name__}: {e}")
     # ---- every way of writing a periodic / anti-periodic axis
     if sections is None or "periodic_specs" in sections:
         grid = UnitGrid([4, 3], periodic=[True, False])
